@@ -1,6 +1,7 @@
 // Native witness search for unit `receiver` (appended to src/receiver/receiver.rs in a scratch copy).
 // C17.receiver.cleanup_fdt.stalled_unfinished_instances_released: after cleanup(now) no FDT instance that is still Receiving and has
-// not seen a packet for longer than the object timeout remains in `fdt_receivers`.
+// not seen a packet for longer than the object timeout remains in `fdt_receivers` (defect repaired by b1c9d96; kept as a regression search);
+// C17.receiver.cleanup_fdt.receiving_instances_kept_iff_not_stalled: an unfinished instance that is NOT idle for longer than the timeout is kept.
 use super::*;
 use crate::common::oti;
 use crate::receiver::writer::ObjectWriterBufferBuilder;
@@ -34,7 +35,7 @@ fn check_cleanup_fdt(n: u32, timeout_secs: u64, idle_secs: u64) -> bool {
     let created = r.fdt_receivers.len();
     let later = t0 + Duration::from_secs(idle_secs);
     r.cleanup(later);
-    r.cleanup(later + Duration::from_secs(idle_secs));
+    if idle_secs > timeout_secs { r.cleanup(later + Duration::from_secs(idle_secs)); }
     let stalled = r.fdt_receivers.values().filter(|f| f.state() == fdtreceiver::FDTState::Receiving).count();
     if std::env::var("VERIF_DEBUG").is_ok() { println!("DEBUG n={} created={} stalled after cleanup={}", n, created, stalled); }
     if idle_secs > timeout_secs && stalled > 0 {
@@ -42,6 +43,12 @@ fn check_cleanup_fdt(n: u32, timeout_secs: u64, idle_secs: u64) -> bool {
                format!("{} FDT instances created by {} packets; {} still held in state Receiving after two cleanup() calls {} s and {} s after their last packet (object_timeout {} s)",
                        created, n, stalled, idle_secs, 2 * idle_secs, timeout_secs),
                "no unfinished FDT instance idle for longer than the object timeout remains after cleanup".to_string());
+        return true;
+    }
+    if idle_secs <= timeout_secs && stalled != created {
+        report("cleanup_fdt", format!("{{\"n\":{},\"timeout_secs\":{},\"idle_secs\":{}}}", n, timeout_secs, idle_secs),
+               format!("{} FDT instances created; only {} left after a cleanup() {} s after their last packet (object_timeout {} s)", created, stalled, idle_secs, timeout_secs),
+               "an unfinished FDT instance that is not idle for longer than the object timeout is kept".to_string());
         return true;
     }
     false
@@ -62,7 +69,7 @@ fn search() {
     let mut evals = 0u64;
     let mut found = 0;
     for n in [1u32, 3, 50] {
-        for (timeout_secs, idle_secs) in [(10u64, 5u64), (10, 11), (1, 3600), (10, 31_536_000)] {
+        for (timeout_secs, idle_secs) in [(10u64, 5u64), (10, 10), (10, 11), (1, 3600), (10, 31_536_000)] {
             evals += 1;
             if found < 2 && check_cleanup_fdt(n, timeout_secs, idle_secs) { found += 1; }
         }
